@@ -23,6 +23,20 @@ NDSize DataView::dataExtent() const {
     return count;
 }
 
+// true if [off, off + cnt) is not contained in [0, bound) in some dimension; the sum is
+// never formed so that huge values cannot wrap around
+static bool exceeds(const NDSize &cnt, const NDSize &off, const NDSize &bound) {
+    if (cnt.size() != bound.size() || off.size() != bound.size()) {
+        throw IncompatibleDimensions("size must agree to compare", "DataView");
+    }
+    for (size_t i = 0; i < bound.size(); i++) {
+        if (off[i] > bound[i] || cnt[i] > bound[i] - off[i]) {
+            return true;
+        }
+    }
+    return false;
+}
+
 NDSize DataView::transform_coordinates(const NDSize &cnt, const NDSize &off) const {
 
     if (!off) {
@@ -34,7 +48,7 @@ NDSize DataView::transform_coordinates(const NDSize &cnt, const NDSize &off) con
         return offset;
 
     } else {
-        if (cnt + off > count) {
+        if (exceeds(cnt, off, count)) {
             throw OutOfBounds("Trying to access data outside of range", 0);
         }
 
